@@ -62,7 +62,9 @@ def new_params(values):
 
 
 def new_space(kind):
-    g = make_grid("tetrahedron")
+    # octahedron: opposite faces are disjoint, so the regular quadrature order is visible in dense operators
+    # (on a tetrahedron every pair of elements is adjacent and only the singular rule is used)
+    g = make_grid("octahedron")
     return api.function_space(g, "P", 1) if kind == "P1" else api.function_space(g, "DP", 0)
 
 
